@@ -144,12 +144,7 @@ def rule_control(ck):
     ck.instance("NotReadyError", {"raisers": nr}, fn="deferred::not_ready")
     if nr != ["deferred::not_ready"]:
         ck.violation("deferred::not_ready", f"NotReadyError is raised by {nr}; it may only be raised by not_ready() in try mode", construct="NotReadyError raisers")
-    else:
-        fn = repo.func("deferred::not_ready")
-        r = [n for n in ast.walk(fn) if isinstance(n, ast.Raise)][0]
-        p = r._parent
-        if not (isinstance(p, ast.If) and "depth" in norm_text(p.test) and "> 0" in norm_text(p.test)):
-            ck.violation(r, "not_ready() raises without testing that a try scope is active: outside a try scope NotReadyError escapes as an internal error", construct="not_ready guard")
+    # (that it raises exactly in try mode is decided by abstract execution in C03.R3)
     # zero-operand metacommands are the only callers of stop_iteration
     I = eager_interp(repo)
     table = I.explore(lambda: (I.module_env("metacommands"), I.module_get("metacommand_impl", "metacommands"))[1])[0].value
@@ -168,6 +163,7 @@ def run(ck):
     ck.run_rule("G2.abstract", "abstract methods are overridden by every concrete class (D5)", 20, escape.rule_abstract)
     ck.run_rule("G2.D3", "local obligations: settle/settled, lookahead/maybe, parsers return, table subscripts", 30, escape.rule_D3)
     ck.run_rule("G2.D6", "control exceptions are contained", 2, rule_control)
+    ck.run_rule("C03.R3", "not_ready() raises exactly in try mode; try scopes suppress exactly NotReadyError and restore their depth", 10, c03.rule_R3)
     ck.run_rule("G3", "optional parser results are None-tested before use", 10, escape.rule_G3)
     ck.run_rule("G10", "dispatch exhaustiveness", 4, escape.rule_G10)
     ck.run_rule("G11", "possibly-deferred values are only used the way deferreds can be used", 5, escape.rule_G11)
@@ -177,6 +173,6 @@ def run(ck):
     ck.run_rule("P6", "struct.pack arguments fit their slots", 10, rule_P6)
     ck.run_rule("P10", "open() of program-given paths: OSError and ValueError are reported", 3, partial.rule_P10)
     ck.run_rule("P11", "chr() of operand values: ValueError and OverflowError are reported", 1, partial.rule_P11)
-    ck.run_rule("P12", "multipliers / ranges / exponents taken from operands are bounded", 3, partial.rule_P12)
+    ck.run_rule("P12", "multipliers / ranges / exponents taken from operands are bounded", 2, partial.rule_P12)
     ck.run_rule("C11.R5", "'.extern all' leaves a usable location (P7)", 4, c11.rule_R5)
     ck.run_rule("C03.R6", "operators applied to not-yet-known operands defer and later evaluate without raising", 9, c03.rule_R6)
